@@ -382,6 +382,8 @@ class _Conv:
             clauses = [(self.expr(c.condition), self.stats(c.body))
                        for c in n.if_clauses]
             return S("if", clauses, self.stats(n.else_clause), line=line)
+        if tn == "RaiseStatNode":
+            return S("raise", self.expr(getattr(n, "exc_type", None)), line=line)
         if tn == "BreakStatNode":
             return S("break", line=line)
         if tn == "ContinueStatNode":
